@@ -160,6 +160,30 @@ def check(run: Run) -> None:
         renames = any(isinstance(c.func, ast.Name) and c.func.id in ("arg_name", "make_args_unique") for g_ in _unit(m, h_) for c in calls_in(g_))
         run.check(renames, "C05.R2e", h_, h_.node, "loop variables are renamed (or arguments proved closed) before substituting underneath them", f"{h_.name} keeps the comprehension's own loop-variable names while substitutions are pending: a free name of a substituted argument that equals a loop variable of the helper's comprehension is captured by it", "alpha-rename the loop variables of comprehensions in inlined helpers", key="binder kept while substitutions are pending", construct=f"{h_.module.name}:{cls.name}.<comprehension handler>")
 
+    # ---------------- R9: recovering a captured helper's source is an attempt, not an obligation
+    run.rule("C05.R9", "a failure of the source scan while looking for a captured helper (any exception) leaves the call by name: the attempt is wrapped in a catch-all handler")
+    from ..lib import unit as _unit9
+    from ..model import ancestors as _anc9
+
+    cap = m.find_class("_rewrite_captured_vars", in_module="func_adl.util_ast")
+    vn9 = cap.methods.get("visit_Name")
+    n_try = 0
+    if vn9 is not None:
+        fns9 = list(_unit9(m, vn9)) + [f_ for f_ in m.funcs.values() if f_.parent_func is vn9]
+        seen9 = set()
+        for f_ in fns9:
+            if f_.qual in seen9:
+                continue
+            seen9.add(f_.qual)
+            for c_ in calls_in(f_):
+                if not (isinstance(c_.func, ast.Name) and c_.func.id == "_parse_source_for_lambda"):
+                    continue
+                n_try += 1
+                tr = next((x for x in _anc9(c_) if isinstance(x, ast.Try) and any(c_ is y for b_ in x.body for y in ast.walk(b_))), None)
+                catch_all = tr is not None and any(h_.type is None or (isinstance(h_.type, ast.Name) and h_.type.id in ("Exception", "BaseException")) or (isinstance(h_.type, ast.Tuple) and any(isinstance(e_, ast.Name) and e_.id in ("Exception", "BaseException") for e_ in h_.type.elts)) for h_ in tr.handlers)
+                run.check(catch_all, "C05.R9", f_, stmt_of(c_), "the attempt to recover a captured helper's source is under a catch-all handler", "the source scan for a captured helper is not under a handler for every exception: the scan is a heuristic that also fails with IndexError / tokenize errors (a helper lambda whose tokens cross a DEDENT, a factory's inner lambda), and such a failure now aborts the capture of the *query* lambda instead of leaving the helper call by name", "except Exception: return None", key="helper source recovery not under a catch-all")
+    run.floor("C05.R9", n_try, 1, "source-recovery attempts for captured helpers")
+
     # ---------------- R8: the helper's body is recovered from source by the same scan as the operator's own lambda
     run.rule("C05.R8", "the source of an inlined helper is recovered under the gates of C03 (rule set of C03 re-evaluated): a neighbouring lambda must never be inlined in its place")
     from ..report import run_stage
